@@ -584,6 +584,12 @@ type body struct {
 
 	mu     sync.Mutex // guards closed, and calls to Read and Close
 	closed bool
+
+	// trailerErr is the error met while reading the trailer of a chunked
+	// body. It is returned by every later Read: what follows a broken
+	// trailer on the wire is of unknown meaning, the body must never look
+	// as if it had ended cleanly.
+	trailerErr error
 }
 
 // ErrBodyReadAfterClose is returned when reading a Request or Response
@@ -603,6 +609,9 @@ func (b *body) Read(p []byte) (n int, err error) {
 
 // Must hold b.mu.
 func (b *body) readLocked(p []byte) (n int, err error) {
+	if b.trailerErr != nil {
+		return 0, b.trailerErr
+	}
 	n, err = b.src.Read(p)
 
 	if err == io.EOF {
@@ -610,6 +619,7 @@ func (b *body) readLocked(p []byte) (n int, err error) {
 		if b.hdr != nil {
 			if e := b.readTrailer(); e != nil {
 				err = e
+				b.trailerErr = e
 			}
 			b.hdr = nil
 		} else {
